@@ -624,7 +624,7 @@ func main() {
 		}
 	} else {
 		r.Require("accept_with_witness", "reject_by_witness_check", "died_at_verify", "scenario_done", "calling_contract_accepted",
-			"calling_contract_rejected", "commit_open_after_timeout", "due_rejected_before_due", "due_operator")
+			"calling_contract_rejected", "commit_open_after_timeout", "due_rejected_before_due", "due_operator", "shape_accept_operator", "shape_reject")
 	}
 	installProbes()
 
@@ -690,6 +690,7 @@ func main() {
 			}
 			if sc.Kind != "open" {
 				x.invalidSignatures(sc, e.vals)
+				x.shapeDimension(sc)
 			}
 			if sc.Kind == "owner" {
 				x.callingContract(sc)
